@@ -187,6 +187,20 @@ pub fn body(src: &mut Src) -> Item {
     item(src.pick(&BODY).to_string())
 }
 
+/// A body instruction that is not control flow (LABEL / JUMP*).
+pub fn straight_body(src: &mut Src) -> Item {
+    loop {
+        let it = body(src);
+        if !matches!(it.instr, Instruction::Label(_) | Instruction::Jump(_) | Instruction::JumpWhen(_) | Instruction::JumpUnless(_) | Instruction::Halt()) {
+            return it;
+        }
+        // control-flow entries are 3 of 24; a zero word never lands on one, so this terminates
+        if src.exhausted() {
+            return item("NOP".to_string());
+        }
+    }
+}
+
 pub struct SeqCfg {
     pub max_len: usize,
     /// percent of items that are body instructions
